@@ -83,6 +83,10 @@ type ExpSim struct {
 	FaultKind  int
 	CancelSeq  int // log length when the context was first cancelled, -1 never
 	EvalErrSeq int // log length when the evaluator returned the injected error, -1 never
+	// EvalErrFlavor: what the injected evaluator error looks like. 0: a plain wrapped error; 1 / 2: it also wraps
+	// context.Canceled / context.DeadlineExceeded - the error of a context of the evaluator's own (a per-generation time
+	// budget, a client call that timed out) while the context of the run is alive
+	EvalErrFlavor int
 	Fired      map[string]int
 	// per evaluation observations
 	EvalPops    []*genetics.Population
@@ -210,7 +214,7 @@ func (s *ExpSim) GenerationEvaluate(ctx context.Context, pop *genetics.Populatio
 		}
 		s.Fired["fault."+FaultNames[f.Kind]]++
 		s.EvalErrSeq = len(s.Log)
-		return fmt.Errorf("generation %d of trial %d: %w", gen, trial, ErrInjectedEval)
+		return s.evalErr(fmt.Sprintf("generation %d of trial %d", gen, trial))
 	}
 	// assign fitness
 	var best *genetics.Organism
@@ -242,12 +246,24 @@ func (s *ExpSim) GenerationEvaluate(ctx context.Context, pop *genetics.Populatio
 		}
 		s.Fired["fault."+FaultNames[f.Kind]]++
 		s.EvalErrSeq = len(s.Log)
-		return fmt.Errorf("generation %d of trial %d solved, but: %w", gen, trial, ErrInjectedEval)
+		return s.evalErr(fmt.Sprintf("generation %d of trial %d solved, but", gen, trial))
 	}
 	if f := s.faultAt(FaultCancelEvalExit, trial, gen); f != nil {
 		s.fire(*f)
 	}
 	return nil
+}
+
+func (s *ExpSim) evalErr(where string) error {
+	switch s.EvalErrFlavor {
+	case 1:
+		s.Fired["fault.eval-error-wraps-context-canceled"]++
+		return fmt.Errorf("%s: %w (the evaluator's own context: %w)", where, ErrInjectedEval, context.Canceled)
+	case 2:
+		s.Fired["fault.eval-error-wraps-deadline-exceeded"]++
+		return fmt.Errorf("%s: %w (the evaluator's own time budget: %w)", where, ErrInjectedEval, context.DeadlineExceeded)
+	}
+	return fmt.Errorf("%s: %w", where, ErrInjectedEval)
 }
 
 // observer callbacks
